@@ -60,6 +60,9 @@ func runSolver(ctx context.Context, sp solverSpec, file string, timeoutS, seed i
 	cmd.Run()
 	ans := solverAnswer{solver: sp.name, seconds: time.Since(t0).Seconds(), output: out.String()}
 	first := strings.TrimSpace(strings.SplitN(out.String(), "\n", 2)[0])
+	if strings.Contains(out.String(), "(error") && !strings.Contains(out.String(), "model is not available") {
+		first = "error"
+	}
 	switch first {
 	case "unsat", "sat", "unknown":
 		ans.answer = first
@@ -181,7 +184,12 @@ func dischargeAll(obls []*Obligation, opts solveOpts, par int) {
 		go func(o *Obligation) {
 			defer wg.Done()
 			defer func() { <-sem }()
-			discharge(o, opts)
+			oo := opts
+			if o.MustFail {
+				oo.timeoutS = 2 // canaries are expected not to be provable; an inconsistency shows up at once
+				oo.all = false
+			}
+			discharge(o, oo)
 			if o.Status == "unknown" && !o.MustFail {
 				// one retry with doubled timeout and another seed
 				o2 := opts
